@@ -356,6 +356,31 @@ func run(c *mon.Ctx) {
 	per := c.N(12, 20000)
 	c.Exhaustive("all 256 flag bytes x both flavours", 512)
 	c.Floor("decoded_then_flavour_setter", 500)
+	c.Floor("concurrent.calls", 5000)
+	c.Stream("concurrent-codecs", c.N(3, 150), func(i int, r *gen.Rand) {
+		c.Concurrent("ebp.ReadEncoderBoundaryPoint + Data", 8, 250, r, func(q *gen.Rand) string {
+			e := genEBP(q, q.Bool(), q.Byte())
+			in := e.Bytes()
+			if len(in) > 257 {
+				return ""
+			}
+			x, err := ebp.ReadEncoderBoundaryPoint(append([]byte{}, in...))
+			if err != nil || x == nil {
+				return fmt.Sprintf("a well-formed EBP was rejected: %v (%s)", err, shape(&e))
+			}
+			if x.TimeFlag() != (e.Flags&0x08 != 0) || x.SapFlag() != (e.Flags&0x20 != 0) || x.GroupingFlag() != (e.Flags&0x10 != 0) {
+				return "decoded flags differ from the encoded ones (" + shape(&e) + ")"
+			}
+			if e.Flags&0x08 != 0 && !x.EBPTime().Equal(ref.NTPInstant(e.Sec, e.Frac)) {
+				return fmt.Sprintf("EBPTime()=%v, encoded %v", x.EBPTime().UTC(), ref.NTPInstant(e.Sec, e.Frac).UTC())
+			}
+			if got := x.Data(); !bytes.Equal(got, in) {
+				return fmt.Sprintf("re-encoding differs from the input at byte %d (%s)", ref.FirstDiff(got, in), shape(&e))
+			}
+			return ""
+		})
+		c.Class("concurrent-codecs")
+	})
 	c.Stream("by-flags", 512, func(i int, r *gen.Rand) {
 		cable, flags := i >= 256, byte(i)
 		for k := 0; k < per; k++ {
